@@ -112,6 +112,7 @@ class Ctx:
         wall = round(time.time() - s.t0, 2)
         cov = {'evaluations': s.evaluations, 'distinct_nontrivial': len(s.distinct), 'rule': s.rule, 'samples': s.samples[:12]}
         cov.update(s.extra)
+        ds = sorted(map(str, s.distinct)); step = max(1, len(ds) // 40); cov['distinct_examples'] = ds[::step][:40]
         cov['observations'] = s.obs
         cov['known_findings_seen'] = sorted(s.known)
         cov['inconclusive_cases'] = len(s.inconclusive)
